@@ -39,6 +39,7 @@ Definition entry_eqb (e : entry) (o : bytes * bytes * bytes * bool) : bool :=
 Definition ltag_eqb (a b : ltag) : bool :=
   match a, b with
   | TEofSignal, TEofSignal | TGzipH1, TGzipH1 | TCallback, TCallback | TCharset, TCharset
+  | TEndChecked, TEndChecked | TTracked, TTracked
   | TAutoDecode, TAutoDecode | TDump, TDump => true
   | TCompress x, TCompress y => enc_eqb x y
   | _, _ => false
@@ -65,7 +66,8 @@ Definition c07_check (c : c07_case) : bool :=
       (* which response header guards the decoder stage is read off the source by gosync *)
       let guard := guard_value (bytes_eqb C07Consts.fork_autodecode_guard_header (bs "Content-Encoding"))
                                resp_ae ce (transport_rewrites st tc ce) in
-      let b := pipeline st tc p guard ce ct o in
+      (* the harness walks the stack after the body has been read (at least one Read) *)
+      let b := after_first_read (pipeline st tc p guard ce ct o) in
       let '(ts, n) := flatten b in
       list_eqb ltag_eqb ts tags && Bool.eqb n bottom_nil && sound b
   | H1Case m bsz lim slack s cmp o =>
